@@ -501,10 +501,13 @@ shadow wrap { assert true }
 fn main() -> int { return 0 }
 shadow main { assert true }
 """,
-    "import": b"""import "modules/std/math/math.nano"
-from "std/io.nano" import nothing
-module demo
-fn main() -> int { return 0 }
+    "import": b"""from "modules/std/collections/stringbuilder.nano" import StringBuilder, sb_new, sb_append, sb_to_string
+from "std/math/vector3d.nano" import Vector3D, vec3_new
+import "modules/std/collections/stringbuilder.nano" as sb
+fn main() -> int {
+    let b: StringBuilder = (sb_new)
+    return 0
+}
 shadow main { assert true }
 """,
     "contracts": b"""fn safe_div(a: int, b: int) -> int
@@ -518,18 +521,16 @@ fn main() -> int { return 0 }
 shadow main { assert true }
 """,
     "ifexpr": b"""fn sign(n: int) -> int {
-    let s: int = if (< n 0) { -1 } else { if (== n 0) { 0 } else { 1 } }
-    return s
+    if (< n 0) { return -1 } else { if (== n 0) { return 0 } else { return 1 } }
 }
 shadow sign { assert (== (sign 5) 1) }
 fn main() -> int { return 0 }
 shadow main { assert true }
 """,
     "generics": b"""fn main() -> int {
-    let xs: List<int> = (List_int_new)
-    (List_int_push xs 1)
-    let h: HashMap<string, int> = (map_new)
-    return 0
+    let xs: List<int> = (list_int_new)
+    (list_int_push xs 1)
+    return (list_int_length xs)
 }
 shadow main { assert true }
 """,
@@ -719,7 +720,7 @@ DEPTH_GENERATORS = {
     "calls": (d_calls, True, True),
     "while_blocks": (d_while_blocks, True, True),
     "if_nest": (d_if_nest, True, True),
-    "if_expr": (d_if_expr, True, True),
+    "if_expr": (d_if_expr, True, False),
     "unary_minus": (d_unary_minus, True, True),
     "unary_not": (d_unary_not, True, True),
     "array_literal": (d_array_literal, True, True),
